@@ -36,8 +36,9 @@ type srvResp struct {
 	Status int
 	Body   []byte
 	CT     string
-	Stall  bool // the body never arrives: Read blocks until the request is cancelled
-	Err    bool // transport error
+	Stall  bool  // the body never arrives: Read blocks until the request is cancelled
+	Err    bool  // transport error
+	ErrIs  error // transport error that wraps this error (e.g. context.DeadlineExceeded, as http.Client.Timeout produces)
 }
 
 type reqRec struct {
@@ -90,6 +91,9 @@ func (s *stubServer) RoundTrip(req *http.Request) (*http.Response, error) {
 		return resp, nil
 	}
 	r := s.handler(n, req.URL.Path, req.URL.RawQuery, req)
+	if r.ErrIs != nil {
+		return nil, fmt.Errorf("injected transport error: %w", r.ErrIs)
+	}
 	if r.Err {
 		return nil, errors.New("injected transport error")
 	}
